@@ -656,3 +656,114 @@ def result_method(setting, plen):
             return "descrypt"
         return "bigcrypt"
     return m
+
+
+# ---------------------------------------------------------------- mutation
+
+STRETCH_LENS = [17, 33, 64, 65, 66, 100, 128, 200, 300, 340, 346, 347, 348, 350,
+                375, 376, 377, 383, 384, 385, 400, 511, 512, 1000, 5000, 32400, 40000]
+
+
+def _longest_run(s, alphabet):
+    best = (0, 0)
+    i = 0
+    n = len(s)
+    while i < n:
+        if s[i] in alphabet:
+            j = i
+            while j < n and s[j] in alphabet:
+                j += 1
+            if j - i > best[1] - best[0]:
+                best = (i, j)
+            i = j
+        else:
+            i += 1
+    return best
+
+
+def _last_run(s, alphabet):
+    """the last run of alphabet characters that is followed by '$' or the end
+    (the salt field of most settings)"""
+    n = len(s)
+    j = n
+    while j > 0 and s[j - 1] == 0x24:
+        j -= 1
+    i = j
+    while i > 0 and s[i - 1] in alphabet:
+        i -= 1
+    return (i, j)
+
+
+def mutate(rng, s, long_ok=True):
+    """Field-aware mutation of a (mostly valid) setting: returns (bytes, label)."""
+    r = rng
+    k = r.choice(["stretch-last", "stretch-last", "stretch-longest", "trunc", "byte",
+                  "dup-dollar", "drop-dollar", "append", "insert", "swapcase-tag",
+                  "digit", "ins-bad", "splice"])
+    if k in ("stretch-last", "stretch-longest"):
+        a = set(A64)
+        i, j = _last_run(s, a) if k == "stretch-last" else _longest_run(s, a)
+        lens = STRETCH_LENS if long_ok else STRETCH_LENS[:12]
+        L = r.choice(lens)
+        fillc = rsalt(r, 1) if r.random() < 0.3 else None
+        body = (fillc * L) if fillc else rsalt(r, L)
+        return s[:i] + body + s[j:], "%s-%d" % (k, L)
+    if k == "trunc":
+        if not s:
+            return s, k
+        return s[:r.randrange(len(s))], k
+    if k == "byte":
+        if not s:
+            return s, k
+        i = r.randrange(len(s))
+        c = r.choice([r.randint(1, 255), r.choice(SAFE_ALL), 0x24, 0x2c, 0x3d])
+        return s[:i] + bytes([c]) + s[i + 1:], k
+    if k == "dup-dollar":
+        i = s.find(b"$", r.randrange(len(s) + 1))
+        if i < 0:
+            return s + b"$", k
+        return s[:i] + b"$" + s[i:], k
+    if k == "drop-dollar":
+        idx = [i for i, c in enumerate(s) if c == 0x24]
+        if not idx:
+            return s, k
+        i = r.choice(idx)
+        return s[:i] + s[i + 1:], k
+    if k == "append":
+        L = r.choice([1, 30, 100, 300, 383, 384, 1000] + ([20000] if long_ok else []))
+        al = r.choice([A64, SAFE_ALL, b"$", b"$."])
+        return s + rsalt(r, L, al), "append-%d" % L
+    if k == "insert":
+        i = r.randrange(len(s) + 1)
+        return s[:i] + rsalt(r, r.randint(1, 8), SAFE_ALL) + s[i:], k
+    if k == "swapcase-tag":
+        return s[:6].swapcase() + s[6:], k
+    if k == "digit":
+        idx = [i for i, c in enumerate(s) if 0x30 <= c <= 0x39]
+        if not idx:
+            return s, k
+        i = r.choice(idx)
+        return s[:i] + bytes([r.choice(b"0123456789")]) + s[i + 1:], k
+    if k == "ins-bad":
+        i = r.randrange(len(s) + 1)
+        c = r.choice(b":;*!\\ \t\n\x7f\x80\xff\x01")
+        return s[:i] + bytes([c]) + s[i:], k
+    # splice two settings
+    return s[:r.randrange(len(s) + 1)] + s[r.randrange(len(s) + 1):], "splice"
+
+
+def random_setting(rng):
+    r = rng
+    k = r.choice(["printable", "bytes", "tag+printable", "tag+bytes", "empty", "star"])
+    n = r.choice([0, 1, 2, 3, 8, 13, 20, 60, 200, 383, 384, 385, 1000])
+    if k == "printable":
+        return rsalt(r, n, SAFE_ALL), "rand-printable"
+    if k == "bytes":
+        return bytes(r.randint(1, 255) for _ in range(n)), "rand-bytes"
+    if k == "tag+printable":
+        return r.choice(TAGS)[1] + rsalt(r, n, SAFE_ALL), "tag+printable"
+    if k == "tag+bytes":
+        return r.choice(TAGS)[1] + bytes(r.randint(1, 255) for _ in range(n)), "tag+bytes"
+    if k == "empty":
+        return b"", "empty"
+    return r.choice([b"*", b"*0", b"*1", b"*0x", b"!", b"x"]), "star"
